@@ -15,8 +15,8 @@ LP_ASSUME = [
 PROPS = {
     "C01": {
         "jobs": [
-            {"name": "rapid", "pkg": "./c01", "run": "^TestRapidPrograms$", "rapid": T(10000, 20000), "shards": T(1, 8), "replay": "^TestReplay$"},
-            {"name": "trees", "pkg": "./c01", "run": "^TestRapidTrees$", "rapid": T(10000, 20000), "shards": T(1, 8)},
+            {"name": "rapid", "pkg": "./c01", "run": "^TestRapidPrograms$", "rapid": T(10000, 100000), "shards": T(1, 16), "replay": "^TestReplay$"},
+            {"name": "trees", "pkg": "./c01", "run": "^TestRapidTrees$", "rapid": T(10000, 100000), "shards": T(1, 16)},
             {"name": "exhaustive", "pkg": "./c01", "run": "^(TestEmptyShapes|TestRegress)$"},
             {"name": "sigma", "pkg": "./c01", "run": "^TestSigmaExhaustive$", "shards": T(1, 16)},
             {"name": "fuzz", "pkg": "./c01", "run": "^FuzzPrograms$", "fuzz": "^FuzzPrograms$", "fuzztime": T(0, 180), "thorough_only": True, "timeout": T(600, 900)},
@@ -31,8 +31,8 @@ PROPS = {
             {"name": "float32", "pkg": "./c02", "run": "^TestFloat32Sweep$", "shards": T(1, 16), "timeout": T(600, 3600)},
             {"name": "grids", "pkg": "./c02", "run": "^(TestIntegerBoundaries|TestTimeAndDurationGrid|TestFloat64Stratified|TestRegress)$"},
             {"name": "sigma", "pkg": "./c02", "run": "^TestSigmaStrings$", "shards": T(1, 16)},
-            {"name": "rapid-values", "pkg": "./c02", "run": "^TestRapidValues$", "rapid": T(4000, 30000), "shards": T(1, 8)},
-            {"name": "rapid-programs", "pkg": "./c02", "run": "^TestRapidPrograms$", "rapid": T(3000, 20000), "shards": T(1, 8), "replay": "^TestReplay$"},
+            {"name": "rapid-values", "pkg": "./c02", "run": "^TestRapidValues$", "rapid": T(4000, 100000), "shards": T(1, 16)},
+            {"name": "rapid-programs", "pkg": "./c02", "run": "^TestRapidPrograms$", "rapid": T(3000, 60000), "shards": T(1, 16), "replay": "^TestReplay$"},
         ],
         "assumptions": LP_ASSUME + ["value equality is checked at FloatingPointPrecision -1 and with the default ErrorMarshalFunc (the statement's quantifier)"],
         "claim": {"ref": "DESIGN.md §5 C02", "technique": "bounded-exhaustive enumeration (float32 patterns, integer boundaries, class-alphabet strings, time/duration grids) + rapid; oracles: expected-value model built on encoding/json/strconv/time, raw-byte identity across entry points",
@@ -41,8 +41,8 @@ PROPS = {
     },
     "C03": {
         "jobs": [
-            {"name": "rapid", "pkg": "./c03", "run": "^TestRapidChains$", "rapid": T(10000, 30000), "shards": T(1, 8), "replay": "^TestReplay$"},
-            {"name": "trees", "pkg": "./c03", "run": "^TestRapidTrees$", "rapid": T(15000, 30000), "shards": T(1, 8)},
+            {"name": "rapid", "pkg": "./c03", "run": "^TestRapidChains$", "rapid": T(10000, 150000), "shards": T(1, 16), "replay": "^TestReplay$"},
+            {"name": "trees", "pkg": "./c03", "run": "^TestRapidTrees$", "rapid": T(15000, 150000), "shards": T(1, 16)},
             {"name": "regress", "pkg": "./c03", "run": "^TestRegress$"},
         ],
         "assumptions": LP_ASSUME + ["hooks of the LP language: add fields, discard, read GetCtx, no-op; wrapped directly, as HookFunc or as LevelHook"],
@@ -53,8 +53,8 @@ PROPS = {
     "C08": {
         "aux_builds": {"lpexec": {"pkg": "./tools/lpexec", "tags": "verif", "env": "VERIF_LPEXEC"}},
         "jobs": [
-            {"name": "rapid", "pkg": "./c08", "tags": "binary_log verif", "run": "^TestRapidPrograms$", "rapid": T(4000, 15000), "shards": T(2, 8), "replay": "^TestReplay$"},
-            {"name": "trees", "pkg": "./c08", "tags": "binary_log verif", "run": "^TestRapidTrees$", "rapid": T(3000, 15000), "shards": T(2, 8)},
+            {"name": "rapid", "pkg": "./c08", "tags": "binary_log verif", "run": "^TestRapidPrograms$", "rapid": T(4000, 60000), "shards": T(2, 16), "replay": "^TestReplay$"},
+            {"name": "trees", "pkg": "./c08", "tags": "binary_log verif", "run": "^TestRapidTrees$", "rapid": T(3000, 60000), "shards": T(2, 16)},
             {"name": "regress", "pkg": "./c08", "tags": "binary_log verif", "run": "^TestRegress$"},
         ],
         "assumptions": LP_ASSUME + ["both builds are compiled from /repo's current working tree; the JSON build runs as a co-process (harness/tools/lpexec)",
@@ -65,8 +65,8 @@ PROPS = {
     },
     "C09": {
         "jobs": [
-            {"name": "rapid", "pkg": "./c09", "tags": "binary_log verif", "run": "^TestRapidPrograms$", "rapid": T(6000, 20000), "shards": T(1, 8), "replay": "^TestReplay$"},
-            {"name": "trees", "pkg": "./c09", "tags": "binary_log verif", "run": "^TestRapidTrees$", "rapid": T(4000, 20000), "shards": T(1, 8)},
+            {"name": "rapid", "pkg": "./c09", "tags": "binary_log verif", "run": "^TestRapidPrograms$", "rapid": T(6000, 100000), "shards": T(1, 16), "replay": "^TestReplay$"},
+            {"name": "trees", "pkg": "./c09", "tags": "binary_log verif", "run": "^TestRapidTrees$", "rapid": T(4000, 100000), "shards": T(1, 16)},
             {"name": "boundaries", "pkg": "./c09", "tags": "binary_log verif", "run": "^(TestBoundaries|TestRegress)$"},
         ],
         "assumptions": LP_ASSUME + ["NaN payloads are not required to survive (zerolog writes the canonical NaN); nil may be CBOR null or embedded JSON null"],
@@ -78,7 +78,7 @@ PROPS = {
 
 PROPS["C05"] = {
     "jobs": [
-        {"name": "trees", "pkg": "./c05", "run": "^TestRapidTrees$", "rapid": T(20000, 40000), "shards": T(2, 16), "replay": "^TestReplay$"},
+        {"name": "trees", "pkg": "./c05", "run": "^TestRapidTrees$", "rapid": T(20000, 120000), "shards": T(2, 16), "replay": "^TestReplay$"},
         {"name": "regress", "pkg": "./c05", "run": "^(TestRegress|TestKnown)$"},
         {"name": "context-branch", "pkg": "./c05", "run": "^TestContextBranchProbe$", "rapid": T(2000, 20000)},
     ],
@@ -93,9 +93,9 @@ GiB = 1 << 30
 PROPS["C17"] = {
     "jobs": [
         {"name": "headers", "pkg": "./c17", "tags": "binary_log verif", "run": "^TestExhaustiveHeaders$", "shards": T(2, 16), "rlimit_as": 12 * GiB, "death_is_violation": True, "timeout": T(600, 3600)},
-        {"name": "structured", "pkg": "./c17", "tags": "binary_log verif", "run": "^TestRapidStructured$", "rapid": T(6000, 40000), "shards": T(2, 8), "rlimit_as": 12 * GiB, "death_is_violation": True, "replay": "^TestReplay$"},
-        {"name": "mutations", "pkg": "./c17", "tags": "binary_log verif", "run": "^TestRapidMutations$", "rapid": T(4000, 30000), "shards": T(2, 8), "rlimit_as": 12 * GiB, "death_is_violation": True},
-        {"name": "cuts", "pkg": "./c17", "tags": "binary_log verif", "run": "^(TestRapidCutPoints|TestRegress)$", "rapid": T(600, 4000), "shards": T(2, 8), "rlimit_as": 12 * GiB},
+        {"name": "structured", "pkg": "./c17", "tags": "binary_log verif", "run": "^TestRapidStructured$", "rapid": T(6000, 150000), "shards": T(2, 16), "rlimit_as": 12 * GiB, "death_is_violation": True, "replay": "^TestReplay$"},
+        {"name": "mutations", "pkg": "./c17", "tags": "binary_log verif", "run": "^TestRapidMutations$", "rapid": T(4000, 100000), "shards": T(2, 16), "rlimit_as": 12 * GiB, "death_is_violation": True},
+        {"name": "cuts", "pkg": "./c17", "tags": "binary_log verif", "run": "^(TestRapidCutPoints|TestRegress)$", "rapid": T(600, 6000), "shards": T(2, 16), "rlimit_as": 12 * GiB},
         {"name": "fuzz", "pkg": "./c17", "tags": "binary_log verif", "run": "^FuzzDecoder$", "fuzz": "^FuzzDecoder$", "fuzztime": T(0, 240), "thorough_only": True, "rlimit_as": 0, "timeout": T(600, 1200)},
     ],
     "assumptions": ["allocation is measured per call with runtime/metrics as a screen and runtime.ReadMemStats (exact) when the screen exceeds the bound; bound = 64 KiB + 64 x len(input), deliberately loose",
@@ -110,8 +110,8 @@ PROPS["C04"] = {
     "jobs": [
         {"name": "grid", "pkg": "./c04", "run": "^(TestLevelGrid)$", "shards": T(4, 16), "timeout": T(600, 3600)},
         {"name": "named", "pkg": "./c04", "run": "^(TestNamedMethods|TestLevelText|TestPanicBehaviour|TestFatalBehaviour)$"},
-        {"name": "random", "pkg": "./c04", "run": "^TestRandomTriples$", "rapid": T(50000, 500000)},
-        {"name": "inert", "pkg": "./c04", "run": "^TestFilteredEventsInert$", "rapid": T(20000, 200000), "shards": T(1, 8)},
+        {"name": "random", "pkg": "./c04", "run": "^TestRandomTriples$", "rapid": T(50000, 2000000)},
+        {"name": "inert", "pkg": "./c04", "run": "^TestFilteredEventsInert$", "rapid": T(20000, 300000), "shards": T(1, 16)},
         {"name": "inert-all", "pkg": "./c04", "run": "^TestFilteredEventsInertAllMethods$", "rapid": T(15, 200), "replay": "^TestReplay$"},
     ],
     "assumptions": ["the global level is process state: jobs run in separate processes and restore TraceLevel",
@@ -125,8 +125,8 @@ PROPS["C04"] = {
 PROPS["C13"] = {
     "jobs": [
         {"name": "exhaustive", "pkg": "./c13", "run": "^(TestExhaustiveBurst|TestExhaustiveBasic)$", "shards": T(4, 16), "timeout": T(600, 3600)},
-        {"name": "compositions", "pkg": "./c13", "run": "^TestRapidCompositions$", "rapid": T(20000, 100000), "shards": T(1, 8), "replay": "^TestReplay$"},
-        {"name": "logger", "pkg": "./c13", "run": "^TestRapidThroughLogger$", "rapid": T(10000, 60000), "shards": T(1, 8)},
+        {"name": "compositions", "pkg": "./c13", "run": "^TestRapidCompositions$", "rapid": T(20000, 250000), "shards": T(1, 16), "replay": "^TestReplay$"},
+        {"name": "logger", "pkg": "./c13", "run": "^TestRapidThroughLogger$", "rapid": T(10000, 100000), "shards": T(1, 16)},
         {"name": "concurrent", "pkg": "./c13", "run": "^TestConcurrentBasic$", "rapid": T(300, 3000), "shards": T(1, 4)},
         {"name": "concurrent-race", "pkg": "./c13", "race": True, "run": "^TestConcurrentBasic$", "rapid": T(60, 600)},
     ],
@@ -140,7 +140,7 @@ PROPS["C13"] = {
 PROPS["C14"] = {
     "jobs": [
         {"name": "exhaustive", "pkg": "./c14", "run": "^TestExhaustive$", "shards": T(4, 16), "timeout": T(600, 3600)},
-        {"name": "rapid", "pkg": "./c14", "run": "^TestRapid$", "rapid": T(15000, 100000), "shards": T(1, 8), "replay": "^TestReplay$"},
+        {"name": "rapid", "pkg": "./c14", "run": "^TestRapid$", "rapid": T(15000, 300000), "shards": T(1, 16), "replay": "^TestReplay$"},
     ],
     "assumptions": ["every MultiLevelWriter (also nested) has at least one destination", "ErrorHandler is a package global: cases run sequentially"],
     "claim": {"ref": "DESIGN.md §5 C14", "technique": "bounded-exhaustive enumeration of (destination kind, event level, per-destination outcome) + property-based testing (rapid) incl. nested MultiLevelWriter; oracle: fan-out reference model + ErrorHandler log",
@@ -150,8 +150,8 @@ PROPS["C14"] = {
 PROPS["C15"] = {
     "jobs": [
         {"name": "exhaustive", "pkg": "./c15", "run": "^TestExhaustive$", "shards": T(4, 16), "timeout": T(600, 3600)},
-        {"name": "rapid", "pkg": "./c15", "run": "^TestRapid$", "rapid": T(8000, 60000), "shards": T(2, 8), "replay": "^TestReplay$"},
-        {"name": "faults", "pkg": "./c15", "run": "^TestRapidFaults$", "rapid": T(6000, 60000), "shards": T(1, 4), "replay": "^TestReplay$"},
+        {"name": "rapid", "pkg": "./c15", "run": "^TestRapid$", "rapid": T(8000, 150000), "shards": T(2, 16), "replay": "^TestReplay$"},
+        {"name": "faults", "pkg": "./c15", "run": "^TestRapidFaults$", "rapid": T(6000, 150000), "shards": T(1, 8), "replay": "^TestReplay$"},
         {"name": "concurrent", "pkg": "./c15", "run": "^TestConcurrent$", "rapid": T(400, 4000), "shards": T(1, 4)},
         {"name": "concurrent-race", "pkg": "./c15", "race": True, "run": "^TestConcurrent$", "rapid": T(100, 1000)},
     ],
@@ -166,7 +166,7 @@ PROPS["C15"] = {
 PROPS["C19"] = {
     "jobs": [
         {"name": "product", "pkg": "./c19", "run": "^(TestExhaustiveProduct|TestSplitLines)$", "timeout": T(600, 3600)},
-        {"name": "sequences", "pkg": "./c19", "run": "^TestRapidSequences$", "rapid": T(5000, 50000), "shards": T(1, 8), "replay": "^TestReplay$"},
+        {"name": "sequences", "pkg": "./c19", "run": "^TestRapidSequences$", "rapid": T(5000, 150000), "shards": T(1, 16), "replay": "^TestReplay$"},
     ],
     "assumptions": ["the expected site is captured by runtime.Callers on the same source line as the statement under test (the generated call sites are one line each and gofmt-stable)",
                     "CallerMarshalFunc is the default (file:line); std-library log.Logger writing through Logger.Write is outside the statement (its frame is inside package log)"],
@@ -178,8 +178,8 @@ PROPS["C19"] = {
 PROPS["C18"] = {
     "jobs": [
         {"name": "proxy", "pkg": "./c18", "run": "^(TestProxyExhaustive)$", "timeout": T(600, 3600)},
-        {"name": "proxy-rapid", "pkg": "./c18", "run": "^TestProxyRapid$", "rapid": T(10000, 100000), "shards": T(1, 4), "replay": "^TestReplay$"},
-        {"name": "isolation", "pkg": "./c18", "run": "^TestIsolation$", "rapid": T(400, 3000), "shards": T(2, 8)},
+        {"name": "proxy-rapid", "pkg": "./c18", "run": "^TestProxyRapid$", "rapid": T(10000, 300000), "shards": T(1, 16), "replay": "^TestReplay$"},
+        {"name": "isolation", "pkg": "./c18", "run": "^TestIsolation$", "rapid": T(400, 6000), "shards": T(2, 16)},
         {"name": "isolation-race", "pkg": "./c18", "race": True, "run": "^TestIsolation$", "rapid": T(120, 800), "shards": T(1, 4)},
     ],
     "assumptions": ["requests are served by direct ServeHTTP calls from goroutines and held in flight together by a barrier in the innermost handler",
@@ -192,8 +192,8 @@ PROPS["C18"] = {
 
 PROPS["C07"] = {
     "jobs": [
-        {"name": "json", "pkg": "./c07", "run": "^(TestRapidChains|TestEachFamily)$", "rapid": T(3000, 20000), "shards": T(1, 8), "replay": "^TestReplay$"},
-        {"name": "cbor", "pkg": "./c07", "tags": "binary_log verif", "run": "^(TestRapidChains|TestEachFamily)$", "rapid": T(3000, 20000), "shards": T(1, 8), "replay": "^TestReplay$"},
+        {"name": "json", "pkg": "./c07", "run": "^(TestRapidChains|TestEachFamily)$", "rapid": T(3000, 150000), "shards": T(1, 8), "replay": "^TestReplay$"},
+        {"name": "cbor", "pkg": "./c07", "tags": "binary_log verif", "run": "^(TestRapidChains|TestEachFamily)$", "rapid": T(3000, 150000), "shards": T(1, 8), "replay": "^TestReplay$"},
     ],
     "assumptions": ["testing.AllocsPerRun(100, chain) integer-averages: a path allocating less than once per 100 events is not seen",
                     "all arguments (slices, errors, boxed values, closures, marshalers) exist before the measured function; the race detector is off"],
@@ -204,7 +204,7 @@ PROPS["C07"] = {
 
 PROPS["C16"] = {
     "jobs": [
-        {"name": "rapid", "pkg": "./c16", "run": "^TestRapidEvents$", "rapid": T(6000, 40000), "shards": T(1, 8), "replay": "^TestReplay$"},
+        {"name": "rapid", "pkg": "./c16", "run": "^TestRapidEvents$", "rapid": T(6000, 200000), "shards": T(1, 16), "replay": "^TestReplay$"},
         {"name": "directed", "pkg": "./c16", "run": "^(TestDirected|TestRegress)$"},
     ],
     "assumptions": LP_ASSUME + ["NoColor, default formatters; PartsOrder is a permutation of a subset of the four standard parts",
